@@ -43,6 +43,10 @@ structure EnginePair (nnc : Bool) (n : Nat) (cs gs : List Row) (fC fG : Bool) (s
   minC : ∀ i, i < cs.length → ∃ x : Vec, x.length ≤ numCols nnc n ∧
     holdsAll ((cs.eraseIdx i).map (toL nnc)) x ∧ ¬ holdsAll (cs.map (toL nnc)) x
   minG : ∀ j, j < gs.length → ¬ Generated ((gs.eraseIdx j).map (toL nnc)) (toL nnc (gs.getD j default)).v
+  /-- for a line neither is its negation (the lines are a basis of the lineality space: stable under the
+      sign normalisation of `strong_normalize`) -/
+  minL : ∀ j, j < gs.length → (gs.getD j default).eq = true →
+    ¬ Generated ((gs.eraseIdx j).map (toL nnc)) ((toL nnc (gs.getD j default)).v.map (-1 * ·))
   satC : fC = true → SatCorrect (cs.map (toL nnc)) (gs.map (toL nnc)) satC.rows ∧ satC.ncols = cs.length
   satG : fG = true → SatCorrect (gs.map (toL nnc)) (cs.map (toL nnc)) satG.rows ∧ satG.ncols = gs.length
 
